@@ -278,6 +278,10 @@ class Driver:
             except web.HTTPException as exc:
                 ev["status"] = exc.status
                 loc = exc.headers.get("Location")
+            except Exception as exc:  # noqa: BLE001  the middleware chain itself failed (a 500 on the wire)
+                ev["status"] = 599
+                ev["err"] = f"{type(exc).__name__}: {exc}"
+                loc = None
             if loc is not None:
                 ev["hasloc"] = True
                 ev["loc"] = G.cps(loc)
@@ -404,7 +408,7 @@ def _describe(d: dict) -> str:
         return s
     if e["ev"] == "Redirect":
         return (f"{s} middleware(append={e['ap']},remove={e['rm']},merge={e['mg']}) GET {G.seg_str(e['raw'])!r} -> "
-                f"{e['status']} Location={G.seg_str(e['loc'])!r}")
+                f"{e['status']} Location={G.seg_str(e['loc'])!r}" + (f" ({e['err']})" if e.get("err") else ""))
     o = e["obs"]
     got = o["t"] if o["t"] != "match" else f"entry {o['i']} {dict((k, G.seg_str(v)) for k, v in o['vars'])}"
     if o["t"] == "405":
